@@ -330,7 +330,7 @@ type ReqSpec struct {
 	GoName bool `json:"go_name,omitempty"`
 }
 
-var jsonCT = []string{"application/json", "Application/JSON", "application/JSON; charset=utf-8"}
+var jsonCT = []string{"application/json", "Application/JSON", "application/JSON; charset=utf-8", "application/json ; charset=utf-8", "application/json;charset=utf-8"}
 
 func (f FieldSpec) has(s int) bool { return f.Tags&(1<<uint(s)) != 0 }
 
